@@ -68,7 +68,9 @@ func gramCases(j run.Job, yield func(c GCase)) {
 			o := gram.GenOpts{Stratified: j.Param("strat", 1) == 1, LRFree: j.Param("lrfree", 0) == 1, Trims: j.Param("trims", 0) == 1}
 			if o.Trims {
 				o.Alpha = "ab \n"
+				o.LeftTrims = j.Param("lefttrims", 0) == 1
 			}
+			o.Ends = j.Param("ends", 0) == 1
 			if j.Param("nl", 0) == 1 && r.Intn(2) == 0 {
 				o.Alpha = "ab\n"
 			}
